@@ -320,7 +320,7 @@ class C01(Property):
             finally:
                 await context.close()
 
-        run_controlled(main, seed, timeout=max(30.0, ctx.time_left() + 60))
+        run_controlled(main, seed, timeout=max(30.0, ctx.time_left() + 900))
         got = ctx.lean("Drivers/C01.lean", self._lines)
         for g, (real, how, case) in zip(got, self._expect):
             if how == "exact":
@@ -393,7 +393,7 @@ class C01(Property):
     # --------------------------------------------------------------------------------------------
     async def run_case(self, ctx: Ctx, rig: Rig, case: dict) -> None:
         try:
-            await asyncio.wait_for(self._run_case(ctx, rig, case), 90)
+            await asyncio.wait_for(self._run_case(ctx, rig, case), 1800)
         except (sd.StepHang, asyncio.TimeoutError) as e:
             ctx.fail("gather:hang", f"the real steps did not terminate: {e}", case)
         except Exception as e:  # noqa: BLE001
@@ -511,17 +511,9 @@ class C01(Property):
         for t in inputs:
             p_in.put(t)
         p_in.put(TerminationToken())
-        run = asyncio.create_task(StreamFlowExecutor(wf).run())
-        _, pending = await asyncio.wait([run], timeout=60)
-        if pending:
-            live = sorted(st.name for st in wf.steps.values() if not st.terminated)
-            run.cancel()
-            try:
-                await run
-            except BaseException:  # noqa: BLE001
-                pass
-            raise sd.StepHang(f"pipeline did not terminate within 60 s; steps still running: {live}")
-        run.result()
+        hung, _, live = await sd.run_workflow(wf, StreamFlowExecutor(wf).run())
+        if hung:
+            raise sd.StepHang(f"pipeline made no progress for 180 s; steps still running: {live}")
         out = list(cur.token_list)
         self._monitor(ctx, case, out, [expect_tree(case["f"], i["value"], levels, i["tag"]) for i in case["inputs"]], check_status=False)
         # every gather of the pipeline against the model: its two input logs in a canonical interleaving, outputs compared per key
@@ -566,17 +558,9 @@ class C01(Property):
         wf = CWLTranslator(context=rig.context, name=f"c01cwl-{rig.n}", output_directory=wdir, cwl_definition=cwl_definition,
                            cwl_inputs=cwl_inputs, cwl_inputs_path=job, workflow_config=WorkflowConfig("w", cfg)).translate()
         await wf.save(rig.context.database)
-        run = asyncio.create_task(StreamFlowExecutor(wf).run())
-        _, pending = await asyncio.wait([run], timeout=120)
-        if pending:
-            live = sorted(st.name for st in wf.steps.values() if not st.terminated)
-            run.cancel()
-            try:
-                await run
-            except BaseException:  # noqa: BLE001
-                pass
-            raise sd.StepHang(f"CWL scatter workflow did not terminate within 120 s; steps still running: {live[:8]}")
-        outputs = run.result()
+        hung, outputs, live = await sd.run_workflow(wf, StreamFlowExecutor(wf).run())
+        if hung:
+            raise sd.StepHang(f"CWL scatter workflow made no progress for 180 s; steps still running: {live[:8]}")
 
         def f2(v):
             return [f2(x) for x in v] if isinstance(v, list) else v * 2 + 1
